@@ -177,6 +177,8 @@ M = [
  ("c13_reserve_before_charge", "C13", "alloc-before-charge:jxl_frame::GroupData::ensure_allocated", "crates/jxl-frame/src/lib.rs",
   "            let handle = tracker.alloc::<u8>(size)?;\n            self.bytes.try_reserve(size)?;\n            self.handle = Some(handle);",
   "            self.bytes.try_reserve(size)?;\n            let handle = tracker.alloc::<u8>(size)?;\n            self.handle = Some(handle);"),
+ ("c13_try_reserve_result_dropped", "C13", "result-discarded:try_reserve", "crates/jxl-frame/src/lib.rs",
+  "            self.bytes.try_reserve(additional)?;", "            let _ = self.bytes.try_reserve(additional);"),
  ("c01_cluster_map_decoder_two_dists", "C01", "bound-lost", "crates/jxl-coding/src/lib.rs",
   "            Decoder::parse(bitstream, 1)?\n        };\n        decoder.begin(bitstream)?;", "            Decoder::parse(bitstream, num_dist.min(2))?\n        };\n        decoder.begin(bitstream)?;"),
 ]
